@@ -150,6 +150,12 @@ func (r *ref) step(f []string, op, o string) fw.Verdict {
 		for k := range r.files { // a compaction re-blocks the key; the layout facts are void
 			r.files[k], r.written[k] = 1, 0
 		}
+	case "crashat":
+		// crashat <point> <op...>: layout ops are the identity; an interrupted delete is
+		// completed after the restart
+		if len(f) > 2 && (f[2] == "del" || f[2] == "dropm") {
+			return r.step(f[2:], strings.Join(f[2:], " "), o)
+		}
 	case "del", "snapdel", "dropm":
 		tmin, tmax := int64(-1<<63), int64(1<<63-1)
 		meas, pred := f[1], "-"
